@@ -70,6 +70,16 @@ Theorem entry_order : forall g std_rt py rt abi main,
 Proof. exact entry_shape. Qed.
 Print Assumptions entry_order.
 
+(* the std runtime package is a root of its own (importers drop the call of its
+   init; the entry function calls it before main.init): its whole tree has run
+   before any other package body - what package-level initialisers and init
+   functions rely on when they read state of package runtime *)
+Theorem entry_runtime_first : forall g r roots,
+  wf g = true -> r < length g -> Forall (fun r => r < length g) roots ->
+  exists t, exec g (r :: roots) = exec g [r] ++ t /\ In (EMain r) (exec g [r]).
+Proof. exact first_root_prefix. Qed.
+Print Assumptions entry_runtime_first.
+
 (* order of variables inside a package (Go spec rule, upstream go/types in the
    implementation): a variable is initialised only after the variables its
    initialiser depends on.  Partial: completeness (every variable of an acyclic
